@@ -15,6 +15,7 @@ import Driver.Faults
 import Driver.Block
 import Driver.C18
 import Driver.CafW64
+import Driver.Routes
 open Sf
 
 def lawOf (s : String) : Option G711.Law :=
@@ -74,4 +75,5 @@ def main (args : List String) : IO UInt32 := do
   | "c18" :: rest => C18Driver.main rest
   | "caf" :: rest => CafW64Driver.cafCmd rest
   | "w64" :: rest => CafW64Driver.w64Cmd rest
+  | "routes" :: rest => RoutesDriver.cmd rest
   | _ => IO.eprintln "usage: sfmodel <g711|...> ..."; return 2
